@@ -156,7 +156,7 @@ def step_grep(log):
     return hits
 
 
-def prepare_overlay(spec):
+def prepare_overlay(spec, optional=True):
     os.makedirs(CACHE, exist_ok=True)
     for f in ("go.mod", "go.sum"):
         src = os.path.join(REPO, f)
@@ -169,7 +169,11 @@ def prepare_overlay(spec):
     rep = {os.path.join(REPO, "common/zzverif/vh.go"): os.path.join(VERIF, "harness/vh/vh.go")}
     for virt, real in spec.get("overlay", {}).items():
         rep[os.path.join(REPO, virt)] = os.path.join(VERIF, "harness", real)
-    path = os.path.join(CACHE, f"overlay_{spec['id']}.json")
+    if optional:
+        # harness parts that touch unexported internals: dropped when they no longer compile (step_harness_one)
+        for virt, real in spec.get("optional_overlay", {}).items():
+            rep[os.path.join(REPO, virt)] = os.path.join(VERIF, "harness", real)
+    path = os.path.join(CACHE, f"overlay_{spec['id']}{'' if optional else '_core'}.json")
     with open(path, "w") as f:
         json.dump({"Replace": rep}, f)
     return path
@@ -241,10 +245,10 @@ def parse_race_reports(text):
     return out
 
 
-def step_harness_one(spec, h, tier, seed, log, race=False, extra_env=None):
+def step_harness_one(spec, h, tier, seed, log, race=False, extra_env=None, optional=True):
     race = race or bool(h.get("race"))
     tier = h.get("tier", tier)
-    ov = prepare_overlay(spec)
+    ov = prepare_overlay(spec, optional)
     outp = os.path.join(CACHE, f"harness_{spec['id']}_{h['test']}_{tier}_{os.getpid()}.json")
     if os.path.exists(outp):
         os.remove(outp)
@@ -281,6 +285,18 @@ def step_harness_one(spec, h, tier, seed, log, race=False, extra_env=None):
         except Exception as e:  # noqa
             log.append(f"harness result unreadable: {e}")
         os.remove(outp)
+    if res is None and optional and spec.get("optional_overlay") and "[build failed]" in out:
+        # the optional harness part (it calls unexported functions) may be what no longer compiles: run the
+        # rest of the harness, which only uses the packages' entry points
+        log.append("harness build failed with the optional part; retrying without it:\n" + "\n".join(out.splitlines()[-12:]))
+        res2 = step_harness_one(spec, h, tier, seed, log, race, extra_env, optional=False)
+        if res2 is not None:
+            res2.setdefault("notes", []).append("optional harness part dropped (it no longer compiles against the code under test): "
+                                                + ", ".join(spec["optional_overlay"].values()))
+            res2.setdefault("findings", []).append({"kind": "correspondence", "key": "optional-harness-part-does-not-compile",
+                                                    "case": ", ".join(spec["optional_overlay"].values()), "real": "\n".join(l for l in out.splitlines() if ".go:" in l)[:1500],
+                                                    "model": "", "detail": "templates that replay a handler's statements by hand no longer compile"})
+        return res2
     if res is None:
         tail = "\n".join(out.splitlines()[-60:])
         log.append("harness did not produce a result (build failure or crash):\n" + tail)
